@@ -1,6 +1,13 @@
 """Shared generation step for the Wire family (C01, C02, C12, and the C08 round trip)."""
-import os
-from lib.common import tlc, tlc_must_pass
+import hashlib, json, os, shutil
+from lib.common import tlc, tlc_must_pass, SPEC, VERIF
+
+
+def _spec_digest(tier):
+    h = hashlib.sha256(tier.encode())
+    for f in ("Wire.tla", "WireShapes.tla", "PsetTx.tla", "Gen_Wire.tla", "Gen_Wire.cfg"):
+        h.update(open(os.path.join(SPEC, f), "rb").read())
+    return h.hexdigest()[:16]
 
 
 def gen(ck):
@@ -8,7 +15,25 @@ def gen(ck):
     paths = {k: os.path.join(w, k + ".ndjson") for k in ("base", "wire", "header", "hwire", "block", "piece")}
     env = {"GEN_TIER": ck.tier, "OUT_BASE": paths["base"], "OUT_WIRE": paths["wire"], "OUT_HEADER": paths["header"],
            "OUT_HWIRE": paths["hwire"], "OUT_BLOCK": paths["block"], "OUT_PIECE": paths["piece"]}
-    r = tlc_must_pass(tlc("Gen_Wire", "Gen_Wire.cfg", w, env=env, workers=1, timeout=3000, xmx="24g"), "Wire gen")
+    # the emission depends on the specification files and the tier only (never on /repo): it is shared between the checks that use
+    # it (C01, C02, C08, C10, C12, C20) through a cache keyed by the digest of those files; a fresh tree regenerates it
+    cache = os.path.join(VERIF, "work", "cache", "wire_" + _spec_digest(ck.tier))
+    meta = os.path.join(cache, "tlc.json")
+    if os.path.exists(meta) and all(os.path.exists(os.path.join(cache, k + ".ndjson")) for k in paths):
+        for k, p in paths.items():
+            shutil.copyfile(os.path.join(cache, k + ".ndjson"), p)
+        r = json.load(open(meta))
+        r["cached"] = "Gen_Wire emission reused from %s (TLC statistics are those of the generating run)" % os.path.relpath(cache, VERIF)
+        r["out"] = ""
+    else:
+        r = tlc_must_pass(tlc("Gen_Wire", "Gen_Wire.cfg", w, env=env, workers=1, timeout=3000, xmx="24g"), "Wire gen")
+        tmp = cache + ".tmp%d" % os.getpid()
+        os.makedirs(tmp, exist_ok=True)
+        for k, p in paths.items():
+            shutil.copyfile(p, os.path.join(tmp, k + ".ndjson"))
+        json.dump({k: v for k, v in r.items() if k != "out"}, open(os.path.join(tmp, "tlc.json"), "w"))
+        shutil.rmtree(cache, ignore_errors=True)
+        os.rename(tmp, cache)
     ck.add_tlc(r, "case emission; constant-level RoundTrip / SizesAgree / IdsRelate / Canonical / HeaderRoundTrip / ClearKeepsHash "
                   "on exactly the emitted cases")
     return paths
